@@ -8,7 +8,8 @@ import Cqos.Lemmas.Incs
   property do not depend on floating point at all; monotonicity needs `part` to be
   antitone along the list, which for the IEEE computation is a fact about doubles that
   the kernel cannot evaluate (`Float` is opaque) — it is evaluated by the driver on
-  every call it executes (`float-not-antitone` would show up as a disagreement).
+  every call it executes (`float-hypothesis-fails` would show up as a disagreement); the
+  same holds for the `n/2` clause (`c14_rate_near`), whose hypothesis is `Near`/`nearHalf`.
 -/
 namespace Cqos.C14
 
@@ -244,5 +245,224 @@ example : fair [70, 20, 10] 100 [] = [(70, 34), (20, 33), (10, 33)] := by decide
 example : rateFinalIncs (fun p => p) [3, 2, 1] 6 = [3, 2, 1] := by decide
 example : rateFinalIncs (fun p => 2 * p) [3, 2, 1] 7 = [6, 1, 0] := by decide   -- truncation
 example : [3, 2, 1].Pairwise (fun a b => (fun p => 2 * p) b ≤ (fun p => 2 * p) a) := by decide
+
+
+/-! ### Rate: every increment is within n/2 of the exact proportional share
+
+Scaled by `2·S` (`S` = sum of the priorities) to stay in the integers: `sc S x = 2·S·x` is an
+amount of handlers, `ex d p = 2·d·p` is the exact share `d·p/S` of priority `p`; "`x` is within
+`k/2` of the exact share of `p`" is `|sc S x − ex d p| ≤ k·S`.  The only fact used about the
+rounding function is `Near`: each rounded part is within 1/2 of the exact share — for the
+IEEE computation this is evaluated by the driver on every call it executes (`nearHalf`). -/
+
+def sc (S x : Nat) : Int := ((2 * S * x : Nat) : Int)
+def ex (d p : Nat) : Int := ((2 * d * p : Nat) : Int)
+def bd (S n : Nat) : Int := ((n * S : Nat) : Int)
+
+def exSum (d : Nat) : List Nat → Int
+  | [] => 0
+  | q :: qs => ex d q + exSum d qs
+
+def scSum (S : Nat) (part : Nat → Nat) : List Nat → Int
+  | [] => 0
+  | q :: qs => sc S (part q) + scSum S part qs
+
+def Near (S d : Nat) (part : Nat → Nat) (p : Nat) : Prop :=
+  sc S (part p) ≤ ex d p + S ∧ ex d p ≤ sc S (part p) + S
+
+theorem near_of_nearHalf (S d : Nat) (part : Nat → Nat) (p : Nat) (h : nearHalf d S part p = true) :
+    Near S d part p := by
+  simp only [nearHalf, Bool.and_eq_true, decide_eq_true_eq] at h
+  unfold Near sc ex
+  constructor <;> omega
+
+theorem sc_nonneg (S x : Nat) : 0 ≤ sc S x := by unfold sc; omega
+theorem ex_nonneg (d p : Nat) : 0 ≤ ex d p := by unfold ex; omega
+theorem bd_nonneg (S n : Nat) : 0 ≤ bd S n := by unfold bd; omega
+theorem bd_zero (S : Nat) : bd S 0 = 0 := by simp [bd]
+theorem bd_succ (S n : Nat) : bd S (n + 1) = bd S n + S := by
+  unfold bd; rw [Nat.succ_mul]; omega
+
+theorem sc_add (S x y : Nat) : sc S (x + y) = sc S x + sc S y := by
+  unfold sc; rw [Nat.mul_add]; omega
+
+theorem sc_sub (S x y : Nat) (h : y ≤ x) : sc S (x - y) = sc S x - sc S y := by
+  have := sc_add S (x - y) y
+  rw [Nat.sub_add_cancel h] at this; omega
+
+theorem sc_lt (S x y : Nat) (hS : 0 < S) (h : x < y) : sc S x < sc S y := by
+  unfold sc
+  have : 2 * S * x < 2 * S * y := Nat.mul_lt_mul_of_pos_left h (by omega)
+  omega
+
+theorem sc_zero (S : Nat) : sc S 0 = 0 := by simp [sc]
+
+theorem exSum_nonneg (d : Nat) (qs : List Nat) : 0 ≤ exSum d qs := by
+  induction qs with
+  | nil => simp [exSum]
+  | cons q qs ih => simp only [exSum]; have := ex_nonneg d q; omega
+
+theorem ex_le_exSum (d : Nat) (qs : List Nat) (q : Nat) (h : q ∈ qs) : ex d q ≤ exSum d qs := by
+  induction qs with
+  | nil => cases h
+  | cons x xs ih =>
+    simp only [exSum]
+    rcases List.mem_cons.1 h with rfl | h'
+    · have := exSum_nonneg d xs; omega
+    · have := ih h'; have := ex_nonneg d x; omega
+
+theorem exSum_eq (d : Nat) (ps : List Nat) : exSum d ps = sc (sumPriorities ps) d := by
+  induction ps with
+  | nil => simp [exSum, sumPriorities, sc]
+  | cons p ps ih =>
+    simp only [exSum, sumPriorities, ih]
+    unfold ex sc
+    have h1 : 2 * (p + sumPriorities ps) * d = 2 * d * p + 2 * sumPriorities ps * d := by
+      rw [Nat.mul_add, Nat.add_mul, Nat.mul_assoc 2 p d, Nat.mul_comm p d, ← Nat.mul_assoc]
+    rw [h1]; omega
+
+/-- the rounded parts of a list are, in total, within `len/2` of the exact shares -/
+theorem scSum_near (S d : Nat) (part : Nat → Nat) (qs : List Nat) (h : ∀ q ∈ qs, Near S d part q) :
+    scSum S part qs ≤ exSum d qs + bd S qs.length ∧ exSum d qs ≤ scSum S part qs + bd S qs.length := by
+  induction qs with
+  | nil => simp [scSum, exSum, bd]
+  | cons q qs ih =>
+    have hq := h q (by simp)
+    have := ih (fun x hx => h x (List.mem_cons_of_mem _ hx))
+    simp only [scSum, exSum, List.length_cons, bd_succ]
+    unfold Near at hq
+    omega
+
+/-- no truncation: every increment is the rounded part and the leftover is what remains -/
+theorem rateIncs_some (S : Nat) (part : Nat → Nat) (qs : List Nat) (rem r : Nat)
+    (h : (rateIncs part qs rem).2 = some r) :
+    (rateIncs part qs rem).1 = qs.map part ∧ sc S rem = scSum S part qs + sc S r := by
+  induction qs generalizing rem with
+  | nil => simp only [rateIncs] at h; cases h; simp [rateIncs, scSum]
+  | cons q qs ih =>
+    simp only [rateIncs] at h ⊢
+    split at h
+    · cases h
+    · rename_i hge
+      rw [if_neg hge]
+      obtain ⟨h1, h2⟩ := ih _ h
+      refine ⟨by simp [h1], ?_⟩
+      simp only [scSum]
+      rw [sc_sub S rem (part q) (by omega)] at h2
+      omega
+
+/-- truncation: the loop left through its `return` -/
+theorem rateIncs_none_near (S d : Nat) (part : Nat → Nat) (hS : 0 < S) (qs : List Nat) (rem : Nat) (B : Int)
+    (hB : 0 ≤ B) (hn : ∀ q ∈ qs, Near S d part q)
+    (h1 : sc S rem ≤ exSum d qs + B) (h2 : exSum d qs ≤ sc S rem + B)
+    (htr : (rateIncs part qs rem).2 = none) (j : Nat) (hj : j < qs.length) :
+    sc S ((rateIncs part qs rem).1[j]'(by rw [rateIncs_length]; exact hj)) ≤ ex d qs[j] + (B + bd S qs.length) ∧
+    ex d qs[j] ≤ sc S ((rateIncs part qs rem).1[j]'(by rw [rateIncs_length]; exact hj)) + (B + bd S qs.length) := by
+  induction qs generalizing rem B j with
+  | nil => simp at hj
+  | cons q qs ih =>
+    have hq := hn q (by simp)
+    unfold Near at hq
+    have hbn := bd_nonneg S qs.length
+    have hen := exSum_nonneg d qs
+    simp only [List.length_cons, bd_succ]
+    simp only [exSum] at h1 h2
+    by_cases hlt : rem < part q
+    · have hsl := sc_lt S _ _ hS hlt
+      have heq : (rateIncs part (q :: qs) rem).1 = rem :: qs.map (fun _ => 0) := by
+        simp [rateIncs, hlt]
+      cases j with
+      | zero =>
+        simp only [heq, List.getElem_cons_zero]
+        constructor <;> omega
+      | succ j =>
+        have hj' : j < qs.length := by simpa using hj
+        have hmem : qs[j] ∈ qs := List.getElem_mem hj'
+        have hle := ex_le_exSum d qs _ hmem
+        simp only [heq, List.getElem_cons_succ, List.getElem_map, sc_zero]
+        have := ex_nonneg d qs[j]
+        constructor <;> omega
+    · have hge : part q ≤ rem := by omega
+      have heq : (rateIncs part (q :: qs) rem).1 = part q :: (rateIncs part qs (rem - part q)).1 := by
+        simp [rateIncs, hlt]
+      have htr' : (rateIncs part qs (rem - part q)).2 = none := by
+        simpa [rateIncs, hlt] using htr
+      cases j with
+      | zero =>
+        simp only [heq, List.getElem_cons_zero]
+        constructor <;> omega
+      | succ j =>
+        have hj' : j < qs.length := by simpa using hj
+        have hsub := sc_sub S rem (part q) hge
+        have := ih (rem - part q) (B + S) (by omega) (fun x hx => hn x (List.mem_cons_of_mem _ hx))
+          (by omega) (by omega) htr' j hj'
+        simp only [heq, List.getElem_cons_succ]
+        constructor <;> omega
+
+/-- **C14 (Rate is within n/2 of the exact proportional share).** For a non-empty list whose
+    priorities sum to `S > 0` and a rounding function that is within 1/2 of the exact share on
+    every listed priority, every increment `x_j` of `Rate` satisfies
+    `|2·S·x_j − 2·d·p_j| ≤ n·S`, i.e. `|x_j − d·p_j/S| ≤ n/2` (n = number of priorities). -/
+theorem c14_rate_near (part : Nat → Nat) (ps : List Nat) (d : Nat)
+    (hS : 0 < sumPriorities ps) (hn : ∀ p ∈ ps, Near (sumPriorities ps) d part p)
+    (j : Nat) (hj : j < ps.length) :
+    sc (sumPriorities ps) ((rateFinalIncs part ps d)[j]'(by rw [rateFinalIncs_length]; exact hj))
+        ≤ ex d ps[j] + bd (sumPriorities ps) ps.length ∧
+    ex d ps[j] ≤ sc (sumPriorities ps) ((rateFinalIncs part ps d)[j]'(by rw [rateFinalIncs_length]; exact hj))
+        + bd (sumPriorities ps) ps.length := by
+  have hlen := rateIncs_length part ps d
+  have hex := exSum_eq d ps
+  cases hro : (rateIncs part ps d).2 with
+  | none =>
+    have hfin : rateFinalIncs part ps d = (rateIncs part ps d).1 := by
+      unfold rateFinalIncs
+      split
+      · rename_i l heq; rw [heq]
+      · rename_i i l r heq; rw [heq] at hro; cases hro
+      · rename_i r heq; rw [heq] at hro; cases hro
+    have := rateIncs_none_near (sumPriorities ps) d part hS ps d 0 (by omega) hn (by omega) (by omega) hro j hj
+    simp only [hfin]
+    omega
+  | some r =>
+    obtain ⟨hl, hsum⟩ := rateIncs_some (sumPriorities ps) part ps d r hro
+    cases ps with
+    | nil => simp at hj
+    | cons p0 ps' =>
+      have hfin : rateFinalIncs part (p0 :: ps') d = (part p0 + r) :: ps'.map part := by
+        unfold rateFinalIncs
+        split
+        · rename_i l heq; rw [heq] at hro; cases hro
+        · rename_i i l r' heq
+          rw [heq] at hro hl
+          simp only [Option.some.injEq] at hro
+          simp only [List.map_cons, List.cons.injEq] at hl
+          rw [hro, hl.1, hl.2]
+        · rename_i r' heq; rw [heq] at hl; simp at hl
+      have hrest := scSum_near (sumPriorities (p0 :: ps')) d part ps' (fun x hx => hn x (List.mem_cons_of_mem _ hx))
+      have hp0 := hn p0 (by simp)
+      unfold Near at hp0
+      simp only [scSum, exSum] at hsum hex
+      simp only [List.length_cons, bd_succ]
+      have hbn := bd_nonneg (sumPriorities (p0 :: ps')) ps'.length
+      cases j with
+      | zero =>
+        simp only [hfin, List.getElem_cons_zero, sc_add]
+        constructor <;> omega
+      | succ j =>
+        have hj' : j < ps'.length := by simpa using hj
+        have hq := hn ps'[j] (List.mem_cons_of_mem _ (List.getElem_mem hj'))
+        unfold Near at hq
+        simp only [hfin, List.getElem_cons_succ, List.getElem_map]
+        have hSn : 0 ≤ (sumPriorities (p0 :: ps') : Int) := by omega
+        constructor <;> omega
+
+/-- non-vacuity of `c14_rate_near`: priorities 3,2,1, dividend 7, exact half-away rounding -/
+example : (∀ p ∈ [3, 2, 1], Near (sumPriorities [3, 2, 1]) 7 (exactPart 7 6) p) ∧
+    rateFinalIncs (exactPart 7 6) [3, 2, 1] 7 = [4, 2, 1] := by
+  refine ⟨?_, by decide⟩
+  intro p hp
+  apply near_of_nearHalf
+  simp only [List.mem_cons, List.mem_nil_iff, or_false] at hp
+  rcases hp with rfl | rfl | rfl <;> decide
 
 end Cqos.C14
